@@ -80,7 +80,7 @@ type Lemma struct {
 	Line    int
 }
 
-var kwRe = regexp.MustCompile(`^(func|extern|lemma|requires|ensures|invariant|modifies|ghost|define|pure|inline|trusted|assume|prove)\b`)
+var kwRe = regexp.MustCompile(`^(func|extern|lemma|emits|requires|ensures|invariant|modifies|ghost|define|pure|inline|trusted|assume|prove)\b`)
 var propRe = regexp.MustCompile(`^\[([A-Z0-9, ]+)\]\s*`)
 var invRe = regexp.MustCompile(`^invariant\[(\d+)\]\s*`)
 
@@ -130,8 +130,19 @@ func (cs *ContractSet) ParseFile(path string) error {
 	}
 	var cur *Contract
 	var lem *Lemma
+	skipping := false // inside an `emits` template block (instantiated per shape by tier2/gen.py)
 	for _, r := range raws {
 		loc := fmt.Sprintf("%s:%d", path, r.line)
+		switch r.kw {
+		case "emits":
+			cur, lem, skipping = nil, nil, true
+			continue
+		case "func", "extern", "lemma":
+			skipping = false
+		}
+		if skipping {
+			continue
+		}
 		switch r.kw {
 		case "func", "extern":
 			lem = nil
